@@ -155,6 +155,7 @@ def oracle(case):
     eps = vs.dkw_eps(n)
     worst = 0.0
     cls = ['d=%d' % d, 'k=%d' % len(cols), 'container:' + case['container'], 'refitted-model' if case.get('prefit_seed') is not None else 'fresh-model']
+    unresolved = False
     for a, j in enumerate(free):
         if sd[a] < 1e-6:
             cls.append('degenerate-free-column')
@@ -168,6 +169,7 @@ def oracle(case):
             jump = np.nanmax(np.asarray(unis[j].cdf(xs + dl), dtype=float) - np.asarray(unis[j].cdf(xs - dl), dtype=float))
         if jump > 1e-3:
             cls.append('marginal-not-continuous-at-float-resolution')
+            unresolved = True
             continue
         cdf, cdf_left = censored_cdf(mu[a], sd[a])
         dist = vs.ks_distance_atoms(scores[:, a], cdf, cdf_left)
@@ -179,7 +181,7 @@ def oracle(case):
     # censoring probability per coordinate < 1e-4 (its total mass is added to the bands below)
     uncensored = np.all(sd > 1e-3) and np.all((min(C_HI, -C_LO) - np.abs(mu)) / np.maximum(sd, 1e-12) > 3.72)
     cens = 1e-4 * len(free)
-    if uncensored and np.linalg.eigvalsh(Sb).min() > 1e-8:
+    if uncensored and not unresolved and np.linalg.eigvalsh(Sb).min() > 1e-8:
         cls.append('joint-whitened')
         L = np.linalg.cholesky(Sb)
         W = np.linalg.solve(L, (scores - mu).T).T
